@@ -904,3 +904,85 @@ def r15_5(ctx):
         ctx.ob("main:fen-argument-accessor-total", not panicky, b.where(b.term_loc(bb)),
                "the --fen argument is read with %s%s" % (sorted({x[1].split("::")[-1] for x in src}) or "no clap accessor",
                                                        "" if not panicky else ": `value_of` panics on an argument that is not valid UTF-8 instead of letting from_fen reject it (value_of_lossy / value_of_os do not)"))
+
+
+# ------------------------------------------------------------------------------------------------
+# well-formed lengths (in bytes) of the six FEN fields: placement "8/8/8/8/8/8/8/8" (15) .. eight ranks of
+# eight piece letters plus seven separators (71); side; castling "-" .. "KQkq"; ep "-" | square; counters
+FIELD_LENGTHS = {0: range(15, 72), 1: (1,), 2: range(1, 5), 3: (1, 2), 4: range(1, 7), 5: range(1, 7)}
+
+
+def r15_7(ctx):
+    """A length test never rejects a well-formed field ("every well-formed FEN of a legal position is
+    accepted"): for every branch of from_fen on `len(field i) OP constant` - field i being the i-th
+    space-separated part of the input - and every length a well-formed field i can have, the edge taken
+    must still be able to reach the construction of the `Ok` result.  The number of fields (6) and of
+    ranks (8) are checked the same way."""
+    f = ctx.facts
+    if not f.has_body(FROM_FEN):
+        raise AnchorMissing(FROM_FEN)
+    b = f.body(FROM_FEN)
+    ctx.note_fn(FROM_FEN)
+    ex = Exprs(b)
+    ok_blocks = set()
+    for loc, st in b.iter_stmts():
+        if st["k"] == "assign" and st["rv"]["k"] == "aggregate" and st["rv"].get("variant") == "Ok" and "BoardState" in (b.local_ty(st["place"]["local"]) or ""):
+            ok_blocks.add(loc[0])
+    if not ok_blocks:
+        raise ShapeNotRecognised("from_fen: no `Ok(board)` construction found")
+
+    def field_of(e):
+        """i when e is (a view of) the i-th part of `fen.split(' ')`; 'fields' / 'rows' for the part lists."""
+        e = strip_refs(e)
+        while e[0] == "deref":
+            e = strip_refs(e[1])
+        if e[0] == "call" and e[1].endswith("Index<I>>::index") and len(e[2]) == 2:
+            base, ix = strip_refs(e[2][0]), strip_refs(e[2][1])
+            if ix[0] == "const" and isinstance(ix[1], int) and field_of(base) == "fields":
+                return ix[1]
+        if e[0] == "call" and e[1].endswith("Iterator::collect"):
+            sp = strip_refs(e[2][0])
+            if sp[0] == "call" and sp[1].endswith("<impl str>::split") and len(sp[2]) == 2:
+                sep = strip_refs(sp[2][1])
+                if sep == ("char", " "):
+                    return "fields"
+                if sep == ("char", "/") and field_of(sp[2][0]) == 0:
+                    return "rows"
+        return None
+    OPS = {"Eq": lambda a, k: a == k, "Ne": lambda a, k: a != k, "Lt": lambda a, k: a < k, "Le": lambda a, k: a <= k,
+           "Gt": lambda a, k: a > k, "Ge": lambda a, k: a >= k}
+    FLIP = {"Lt": "Gt", "Gt": "Lt", "Le": "Ge", "Ge": "Le", "Eq": "Eq", "Ne": "Ne"}
+    n = 0
+    for s in sorted(b.normal):
+        if s not in b.reachable or b.term(s)["k"] != "switch":
+            continue
+        d = strip_refs(ex.switch_discr(s))
+        if d[0] != "bin" or d[1] not in OPS:
+            continue
+        lhs, rhs, op = strip_refs(d[2]), strip_refs(d[3]), d[1]
+        if lhs[0] == "const" and rhs[0] == "call":
+            lhs, rhs, op = rhs, lhs, FLIP[op]
+        if not (lhs[0] == "call" and lhs[1].endswith("::len") and rhs[0] == "const" and isinstance(rhs[1], int) and not isinstance(rhs[1], bool)):
+            continue
+        fld = field_of(lhs[2][0])
+        if fld is None:
+            continue
+        lengths = {"fields": (6,), "rows": (8,)}.get(fld) or FIELD_LENGTHS.get(fld)
+        if lengths is None:
+            continue
+        if fld == 3 and any("'-'" in str(dd) or '"-"' in str(dd) for dd, _v, _e, _s, _t in dominating_facts(b, ex, s)):
+            lengths = (2,)       # under `field != "-"` only a square is left
+        n += 1
+        tt = b.term(s)
+        rejected = []
+        for L in lengths:
+            truth = int(OPS[op](L, rhs[1]))
+            tg = next((t_ for v, t_ in tt["cases"] if v == truth), tt["otherwise"])
+            if not any(tg == o or b.reaches(tg, o) for o in ok_blocks):
+                rejected.append(L)
+        what = {"fields": "the number of fields", "rows": "the number of ranks"}.get(fld, "the length of field %s" % fld)
+        ctx.ob("from_fen:length-test(%s %s %d)" % (str(fld), op, rhs[1]), not rejected, b.where(b.term_loc(s)),
+               "`%s %s %d`: %s" % (what, op, rhs[1], "no well-formed value is rejected" if not rejected else
+                   "a well-formed field of length %s is rejected (well-formed lengths: %d..%d) - a legal position's FEN is refused" % (rejected[:4], min(lengths), max(lengths))))
+    # no floor: a reader without recognisable length tests rejects nothing by length (vacuously fine)
+    ctx.info["R15.7"] = {"length_tests": n}
